@@ -15,6 +15,7 @@ res = {"property": pid, "id": sid}
 try:
     r = run(["git", "-C", "/repo", "worktree", "add", "--detach", wt, "HEAD", "-q"]); assert r.returncode == 0, r.stderr
     res["repo_head"] = run(["git", "-C", "/repo", "rev-parse", "--short", "HEAD"]).stdout.strip()
+    shutil.copy("/repo/spec_classes/_version.py", os.path.join(wt, "spec_classes", "_version.py"))  # gitignored, build-generated
     shutil.copy(os.path.join(src, "demo.py"), os.path.join(wt, "_demo.py"))
     r0 = run(["/venv/bin/python", "_demo.py"], cwd=wt, timeout=600)
     res["demo_without_patch_rc"] = r0.returncode
